@@ -27,7 +27,7 @@ import core
 
 THEOREMS = ["C18_roundtrip", "C18_assembly", "C18_coords", "C18_labels", "C18_save_succeeds",
             "C18_labels_orig_refuted", "C18_select",
-            "C18_fill_loop", "C18_fill_first", "C18_indexing", "C18_description_meaning"]
+            "C18_fill_loop", "C18_fill_first", "C18_indexing", "C18_description_meaning", "C18_description_original"]
 TRUSTED = [
     "Model/NetcdfAsm.v is hand-written (repaired save_footprints_to_netcdf: array assembly, coordinate slicing, "
     "by-name tower metadata, met series, selection); tied to bldfm.io (A) by exact differential execution of real "
@@ -45,6 +45,8 @@ TRUSTED = [
     "validated by the bit-level comparison of every element of every block",
 ]
 ASSUMPTIONS = [
+    "tie (B): the name comparison is reflexive (eqbN a a = true: a dict finds a key it contains) - hypothesis of bridge_save / "
+    "C18_description_meaning; the encoding keys zlib/complevel/shuffle/fletcher32/contiguous/chunksizes do not change stored values",
     "results is a dict (unique keys) of equally shaped results; per-step met values and timestamps are the same for "
     "all towers (as run_bldfm_multitower produces them): they are taken from the first tower",
     "tower names in the configuration are unique and time labels str(timestamp) are pairwise distinct (needed only "
